@@ -96,8 +96,18 @@ impl Ctx {
                 signed.as_object_mut().unwrap().remove("_type");
             }
         }
+        // "ok": the functionary's GENUINE signature over the content whenever the library can read the content at all
+        // (the unusual content then gets past the signature check, into threshold counting and rule application)
+        let genuine = guarded(|| {
+            let w = MetadataWrapper::try_from_bytes(signed.to_string().as_bytes()).ok()?;
+            let mb = Metablock::new(w, &[self.km.sk("k1")]).ok()?;
+            let v = serde_json::to_value(&mb).ok()?;
+            v["signatures"][0]["sig"].as_str().map(|x| x.to_string())
+        })
+        .ok()
+        .flatten();
         let sigval = match d["sig_value"].as_str().unwrap() {
-            "ok" => json!("ab".repeat(64)),
+            "ok" => json!(genuine.unwrap_or_else(|| "ab".repeat(64))),
             "odd_hex" => json!("abc"),
             "nonhex" => json!("zz".repeat(64)),
             "empty" => json!(""),
@@ -329,9 +339,20 @@ impl Ctx {
                                 }
                                 // a valid link for every step name that can be a file name
                                 let mut files = vec![];
+                                let how = d["links"].as_str().unwrap_or("present");
                                 for st in &l.steps {
-                                    let link = Metablock::new(simple_link(&st.name), &[self.km.sk("k1")]).unwrap();
-                                    files.push((format!("{}.{}.link", st.name, &self.km.idstr("k1")[0..8]), serde_json::to_string(&link).unwrap()));
+                                    if how == "absent" {
+                                        break;
+                                    }
+                                    let by = if how == "by_other_key" { "k2" } else { "k1" };
+                                    let link = Metablock::new(simple_link(&st.name), &[self.km.sk(by)]).unwrap();
+                                    let mut text = serde_json::to_value(&link).unwrap();
+                                    if how == "bad_signature" {
+                                        let sig = text["signatures"][0]["sig"].as_str().unwrap_or("").to_string();
+                                        let flipped: String = sig.chars().enumerate().map(|(i, c)| if i == 4 { if c == '0' { '1' } else { '0' } } else { c }).collect();
+                                        text["signatures"][0]["sig"] = json!(flipped);
+                                    }
+                                    files.push((format!("{}.{}.link", st.name, &self.km.idstr(by)[0..8]), text.to_string()));
                                 }
                                 call("final_product_verification", self.verify_with_dir(&mb, &files));
                             }
